@@ -81,6 +81,13 @@ fn main() {
     }
     real::install_panic_hook();
     let id = args[0].clone();
+    if id == "EVAL" {
+        // ad-hoc probe: rscel-mc EVAL '<source>' ...
+        for src in &args[1..] {
+            println!("{}  =>  {}", src, real::eval(src, &[]).show());
+        }
+        return;
+    }
     let mut tier = match std::env::var("VERIF_TIER").ok().as_deref() {
         Some("thorough") => Tier::Thorough,
         _ => Tier::Quick,
